@@ -1392,8 +1392,13 @@ impl StateMachine for FileStateMachine {
         let mut new_data = HashMap::new();
 
         while pos < buffer.len() {
+            // The key-value records are followed by the lease section `[ttl_len][ttl bytes]`.
+            // When what starts here is not a complete record, rewind to its start so that the
+            // lease section below is parsed from the right offset (it used to be consumed as a key).
+            let record_start = pos;
             // Read key length
             if pos + 8 > buffer.len() {
+                pos = record_start;
                 break;
             }
 
@@ -1413,6 +1418,7 @@ impl StateMachine for FileStateMachine {
 
             // Read key
             if pos + key_len > buffer.len() {
+                pos = record_start;
                 break;
             }
 
@@ -1421,6 +1427,7 @@ impl StateMachine for FileStateMachine {
 
             // Read value length
             if pos + 8 > buffer.len() {
+                pos = record_start;
                 break;
             }
 
@@ -1440,6 +1447,7 @@ impl StateMachine for FileStateMachine {
 
             // Read value
             if pos + value_len > buffer.len() {
+                pos = record_start;
                 break;
             }
 
@@ -1448,6 +1456,7 @@ impl StateMachine for FileStateMachine {
 
             // Read term
             if pos + 8 > buffer.len() {
+                pos = record_start;
                 break;
             }
 
